@@ -41,7 +41,7 @@ for d in DIRS:
     m["first_reports"] = [l[:200] for l in fired[:3]]
     json.dump(m, open(d + "meta.json", "w"), indent=1)
     silent += not props
-    rows.append("| %s | %s | %s | %s |" % (bid, "moderate" if m.get("round", 1) == 2 else "aggressive", (m.get("summary") or "")[:150].replace("|", "/").replace("\n", " "),
+    rows.append("| %s | %s | %s | %s |" % (bid, "moderate" if m.get("round", 1) >= 2 else "aggressive", (m.get("summary") or "")[:150].replace("|", "/").replace("\n", " "),
                 "silent" if not props else "**alarm**: " + ", ".join(m["false_alarm_rules"][:4]) + " (" + "+".join(props) + ")"))
     print(bid, props, m["false_alarm_rules"][:4])
 json.dump(dict(refactors=len(rows), silent=silent, false_alarms=len(rows) - silent), open(V + "/benign/SUMMARY.json", "w"), indent=1)
